@@ -83,6 +83,8 @@ def cases(rng, tier):
         out.append(S.scenario_case(S.gen_scripted_windows(rng), 'scripted-windows'))
     for _ in range(300 if tier == 'thorough' else 40):
         out.append(S.scenario_case(S.gen_request_tail(rng), 'request-tail'))
+    for _ in range(200 if tier == 'thorough' else 30):
+        out.append(S.scenario_case(S.gen_concurrent(rng), 'concurrent'))
     out += in_window_cases(rng, 2000 if tier == 'thorough' else 300)
     return out
 
@@ -157,7 +159,7 @@ def direct(rng, tier, focus=()):
     fams = [('transaction', lambda r: S.gen_transaction(r, big=r.random() < 0.15, maxfaults=4), 80000 if big else 2500),
             ('concurrent', lambda r: S.gen_concurrent(r), 1500 if big else 100),
             ('scripted-windows', lambda r: S.gen_scripted_windows(r), 1500 if big else 150)]
-    failures, stats = S.direct_families(rng, fams, S.check_c05, focus)
+    failures, stats = S.direct_families(rng, fams, lambda tr: S.check_c05(tr) + [x for x in S.check_c04(tr) if x['kind'] == 'timer-overdue'], focus)
     for spec in sweep_specs(rng, 'thorough') + long_specs('thorough'):
         tr, fs = S.run_checked(spec, S.check_c05, max_steps=8000)
         stats['evaluations'] += 1
